@@ -10,6 +10,9 @@ import (
 	"strings"
 
 	"github.com/ChrisTrenkamp/xsel"
+	"github.com/ChrisTrenkamp/xsel/node"
+	"github.com/ChrisTrenkamp/xsel/parser"
+	"github.com/ChrisTrenkamp/xsel/store"
 
 	"xselverif/internal/adoc"
 	"xselverif/internal/bridge"
@@ -131,7 +134,13 @@ func newXMLWorld(d *adoc.Doc, g *rng.R) (*world, error) {
 // of PRNG-free pseudo-random sizes 1..23 derived from the content, 2 one byte
 // per Read, 3 a Read ends right after every closing '}', ']' or '>'.
 func hostileReader(b []byte, mode int) (io.Reader, string) {
-	switch mode % 4 {
+	switch mode % 5 {
+	case 4:
+		// a seekable reader the caller has already advanced past a header of its own
+		header := []byte("HEADER {\"not\": [\"for\", \"the\", \"parser\"]} <skipped attr='x'>\n")
+		rd := bytes.NewReader(append(append([]byte{}, header...), b...))
+		rd.Seek(int64(len(header)), io.SeekStart)
+		return rd, "seekable reader positioned after a header"
 	case 1:
 		h := fnv.New32a()
 		h.Write(b)
@@ -147,7 +156,7 @@ func hostileReader(b []byte, mode int) (io.Reader, string) {
 func contentMode(b []byte) int {
 	h := fnv.New32a()
 	h.Write(b)
-	return int(h.Sum32()>>3) % 4
+	return int(h.Sum32()>>3) % 5
 }
 
 type chunkReader struct {
@@ -415,7 +424,6 @@ func foreignSection(r *evid.Run, class string, idx int, g *rng.R, w *world, o ad
 	}
 }
 
-
 func fsName(g *rng.R, w *world) xast.Test {
 	els, _, _ := vocab(w.d)
 	if len(els) > 0 && g.P(80) {
@@ -456,4 +464,66 @@ func fsPathEB(g *rng.R, wB *world, ov xast.Expr) xast.Expr {
 		return xast.Fn("count", xast.Path{Head: ov, HPred: []xast.Expr{xast.N(1)}, Steps: []xast.Step{xast.DS(), xast.S("child", xast.AnyT())}})
 	}
 	return xast.Fn("count", ds(xast.S("child", xast.NodeT())))
+}
+
+// ---- two parsers of the same kind pulled alternately (one event each) ----
+
+type pulled struct {
+	n   node.Node
+	end bool
+	err error
+}
+
+type alternator struct {
+	a, b  parser.Parser
+	buf   []pulled
+	bDone bool
+}
+
+func (x *alternator) pullB() {
+	if x.bDone {
+		return
+	}
+	n, end, err := x.b.Pull()
+	x.buf = append(x.buf, pulled{n, end, err})
+	if err != nil {
+		x.bDone = true
+	}
+}
+
+func (x *alternator) Pull() (node.Node, bool, error) {
+	x.pullB()
+	return x.a.Pull()
+}
+
+type replayParser struct {
+	evs []pulled
+	i   int
+}
+
+func (p *replayParser) Pull() (node.Node, bool, error) {
+	if p.i >= len(p.evs) {
+		return nil, false, io.EOF
+	}
+	e := p.evs[p.i]
+	p.i++
+	return e.n, e.end, e.err
+}
+
+// buildAlternating builds the tree of parser a while parser b is pulled in lockstep, then the tree
+// of b from the events it delivered: parsers are independent objects, so each tree must be the one
+// its own input describes.
+func buildAlternating(a, b parser.Parser) (ra, rb store.Cursor, ea, eb error) {
+	defer func() {
+		if p := recover(); p != nil {
+			ea = fmt.Errorf("PANIC: %v", p)
+		}
+	}()
+	x := &alternator{a: a, b: b}
+	ra, ea = store.CreateInMemory(x)
+	for !x.bDone {
+		x.pullB()
+	}
+	rb, eb = store.CreateInMemory(&replayParser{evs: x.buf})
+	return
 }
